@@ -144,6 +144,15 @@ func (tc *typechecker) checkIdentifier(ident *ast.Identifier, used bool) *typeIn
 		tc.compilation.iteaToUsingCheck[ident.Name] = uc
 	}
 
+	// A use of a constant has its own type info: the type of the value it is
+	// implicitly converted to is stored in the type info, and it must not be
+	// shared with the other uses of the constant, or with other compilations
+	// for the constants of the universe block.
+	if ti.IsConstant() {
+		cti := *ti
+		ti = &cti
+	}
+
 	tc.compilation.typeInfos[ident] = ti
 	return ti
 }
